@@ -118,9 +118,10 @@ func (p *Program) Explore(key string, opts *VerifyOpts) (*Exec, *FuncReport, err
 		snap[k] = v
 	}
 	fr.entryHeap = snap
-	fr.onReturn = func(st *State, results []Value) {
+	fr.onReturn = func(st *State, fr *Frame, results []Value) {
 		if ct != nil {
 			env := x.specEnvFor(st, fn, args, results, fr.entryHeap)
+			x.bindLocals(env, fr)
 			x.extendEnv(env, st, fr)
 			for _, cl := range ct.Ensures {
 				t, err := env.EvalBool(cl.Text)
